@@ -3,6 +3,7 @@ CONSTANTS N = 4
   Start = 1
   MaxCrashes = 0
   Variant = "fromgenesis"
+  RepairAtStart = TRUE
   AllowMissing = FALSE
 PROPERTY FinMonotone
 CHECK_DEADLOCK FALSE
